@@ -195,6 +195,16 @@ def validateEmode (entries : List Entry) (lInit lMaint maxInitU32 maxMaintU32 : 
 
 /-! ### emissions flags -/
 
+/-- `lending_pool_configure_bank(bank_config)`: a frozen bank only takes the two limits; otherwise the whole
+    configuration is applied AND THEN the bank's stored e-mode entries are re-validated against the NEW liability
+    weights and the group's leverage caps -/
+def ixConfigureBank (c : Cfg) (flags : Nat) (entries : List Entry) (maxInitU32 maxMaintU32 : Int) (o : CfgOpt) : Res (Cfg × Nat) :=
+  if hasFlag flags FREEZE_SETTINGS then .ok (configureUnfrozen c o, flags)
+  else do
+    let r ← configure c flags o
+    let _ ← validateEmode entries r.1.lInit r.1.lMaint maxInitU32 maxMaintU32
+    .ok r
+
 /-- `verify_emissions_flags` -/
 def verifyEmissionsFlags (f : Nat) : Bool := (f &&& EMISSION_FLAGS.toNat) == f
 
